@@ -269,6 +269,11 @@ def main(tier, seed, replay=None):
                 "require List; [k for k in keys List]", "require String as S; string([e[0] for e in entries S])", "require List import [first as pick, last as pick]; pick([1, 2, 3])",
                 "require Stat; string(Stat)", "require Math; [k for k in keys Math]", "require Set; require List; string([Set, List])", "require Type; def r = []; for k in keys Type do append(r, k) end; r",
                 "require Set unqualified; string([union, diff])", "require Date; length(string(Date))", "require Set; string(object(Set))", "require Set; string(map(Set))"]
+    # equal sets of strings built in two orders, used as elements and keys one level up (their hash must not depend on the iteration order)
+    for words in (["pear", "fig"], ["pear", "fig", "apple"], ["kiwi", "lime", "plum", "date"], ["a", "b", "c"], ["x1", "x2", "x3", "x4"], ["ab", "ba"]):
+        a = "<<" + ", ".join("'%s'" % w for w in words) + ">>"
+        b = "<<" + ", ".join("'%s'" % w for w in reversed(words)) + ">>"
+        modprogs.append("def a = %s; def b = %s; def m = <<<>>>; m[a] = 'found'; [a == b, length(<<a, b>>), b in <<a>>, m[b, 'missing'], string(<<a, b>>), length(set([a, b, a]))]" % (a, b))
     modres = {sd: run_seed(modprogs, sd, False) for sd in seeds}
     mdis = 0
     for k, prog in enumerate(modprogs):
@@ -279,7 +284,7 @@ def main(tier, seed, replay=None):
                 rep.violation("input", "%s gives %s under PYTHONHASHSEED=%s but %s under PYTHONHASHSEED=%s" % (prog, modres[sd][k], sd, modres[seeds[0]][k], seeds[0]),
                               check="seed", program=prog, seeds=[seeds[0], sd])
                 break
-    rep.oblige("module objects: %d programs that look at the members of module objects give identical results under %d hash seeds" % (len(modprogs), len(seeds)), mdis == 0, "%d disagreements" % mdis)
+    rep.oblige("module objects and nested sets: %d programs that look at the members of module objects / use equal string sets as elements and keys give identical results under %d hash seeds" % (len(modprogs), len(seeds)), mdis == 0, "%d disagreements" % mdis)
     base = results[seeds[0]]
     dis = 0
     three = 0
